@@ -14,19 +14,69 @@ import (
 type Ctl struct {
 	brk   map[string]func(*State)
 	cont  map[string]func(*State)
+	gotos map[string]func(*State) // backward goto = next iteration of the loop that starts at the label
 	ret   func(*State, []Value)
 	label string // pending label for the next loop/switch
 }
 
 func (c *Ctl) with() *Ctl {
-	n := &Ctl{brk: map[string]func(*State){}, cont: map[string]func(*State){}, ret: c.ret}
+	n := &Ctl{brk: map[string]func(*State){}, cont: map[string]func(*State){}, gotos: map[string]func(*State){}, ret: c.ret}
 	for k, v := range c.brk {
 		n.brk[k] = v
 	}
 	for k, v := range c.cont {
 		n.cont[k] = v
 	}
+	for k, v := range c.gotos {
+		n.gotos[k] = v
+	}
 	return n
+}
+
+// gotoTarget: is the label of this statement the target of a goto somewhere in stmts?
+func gotoTarget(stmts []ast.Stmt, label string) bool {
+	found := false
+	for _, s := range stmts {
+		ast.Inspect(s, func(n ast.Node) bool {
+			if _, isLit := n.(*ast.FuncLit); isLit {
+				return false
+			}
+			if b, ok := n.(*ast.BranchStmt); ok && b.Tok == token.GOTO && b.Label != nil && b.Label.Name == label {
+				found = true
+			}
+			return !found
+		})
+	}
+	return found
+}
+
+// gotoLoop: `L: s0; s1; ...; goto L; ...` - the statements from the label to the end of the enclosing block are the body of
+// a loop named L (contract clauses `loop L: invariant ...`); `goto L` ends an iteration, falling off the end of the block
+// leaves the loop.
+func (u *Unit) gotoLoop(st *State, stmts []ast.Stmt, label string, c *Ctl, k func(*State)) {
+	var ls *LoopSpec
+	if u.c != nil {
+		ls = u.c.Loops[label]
+	}
+	body := &ast.BlockStmt{Lbrace: stmts[0].Pos(), List: stmts, Rbrace: stmts[len(stmts)-1].End()}
+	bodyPos := stmts[0].Pos()
+	if ls == nil {
+		u.subsetErr(stmts[0].Pos(), "goto loop %s has no invariant", label)
+		return
+	}
+	u.reached["loop "+label] = true
+	u.checkInvariants(st, ls, label, "inv_entry", bodyPos, nil)
+	u.havocLoop(st, body, nil, ls, bodyPos)
+	u.assumeInvariants(st, ls, label, bodyPos, nil)
+	c2 := c.with()
+	c2.label = ""
+	c2.gotos[label] = func(se *State) {
+		u.checkInvariants(se, ls, label, "inv_pres", bodyPos, nil)
+	}
+	first := stmts[0].(*ast.LabeledStmt).Stmt
+	u.stmt(st, first, c2, func(s2 *State) {
+		u.block(s2, stmts[1:], c2, k)
+	})
 }
 
 func (u *Unit) ev(st *State, pos token.Pos) *Ev {
@@ -48,6 +98,12 @@ func (u *Unit) block(st *State, stmts []ast.Stmt, c *Ctl, k func(*State)) {
 	if len(stmts) == 0 {
 		k(st)
 		return
+	}
+	if ls, ok := stmts[0].(*ast.LabeledStmt); ok && gotoTarget(stmts, ls.Label.Name) {
+		if _, inLoop := c.gotos[ls.Label.Name]; !inLoop {
+			u.gotoLoop(st, stmts, ls.Label.Name, c, k)
+			return
+		}
 	}
 	u.stmt(st, stmts[0], c, func(s2 *State) {
 		u.block(s2, stmts[1:], c, k)
@@ -252,6 +308,11 @@ func (u *Unit) stmt(st *State, s ast.Stmt, c *Ctl, k func(*State)) {
 			}
 		case token.CONTINUE:
 			if f, ok := c.cont[lbl]; ok {
+				f(st)
+				return
+			}
+		case token.GOTO:
+			if f, ok := c.gotos[lbl]; ok {
 				f(st)
 				return
 			}
